@@ -59,7 +59,7 @@ def sources_for(rng, uni, rdims, k, full):
 
 def generate(tier, rng):
     cases = []
-    unis = [mk_universe((2, 2, 3), "abc"), mk_universe((2, 2, 2), "abc")]
+    unis = [mk_universe((2, 2, 3), "abc"), mk_universe((2, 2, 2), "abc"), mk_universe((2, 3, 2), "abc", int_dims=("b",), falsy=True)]
     k = 0
     for ui, uni in enumerate(unis):
         L = list(uni.keys())
